@@ -437,7 +437,9 @@ func c16Check(ci any, o *core.Obs) {
 	}
 	// (6) explicit newlines start a new line
 	if !bidi {
-		nl := strings.Count(strings.ReplaceAll(strings.TrimRight(input, "\r\n \t"), "\r\n", "\n"), "\n")
+		// (characters after the last break that leave no trace — soft hyphens, zero-width spaces — do not
+		// make a line of their own: with a box height such a line may be the one that was dropped)
+		nl := strings.Count(strings.ReplaceAll(strings.TrimRight(input, "\r\n \t\u00ad\u200b"), "\r\n", "\n"), "\n")
 		if len(lines) < nl+1 && strings.TrimSpace(input) != "" {
 			fail("newline", "the input has %d explicit line breaks but only %d lines were laid out", nl, len(lines))
 			return
